@@ -2,7 +2,7 @@
 import numpy as np
 import pandas as pd
 
-from .. import common
+from .. import common, checklib
 from ..rtc import par
 
 LEVEL = "exploration"
@@ -128,7 +128,13 @@ def _chunk(task):
     return res
 
 
+def PROOFS():
+    from ..contracts import design_c
+    return [("vf.contracts.design_c", design_c.FUNCTIONS)]
+
+
 def run(report, findings):
+    checklib.run_proofs(report, "C08", PROOFS())
     seeds = [common.seed()] if report.tier == "quick" else [common.seed() + i for i in range(8)]
     evals = ok = bad = 0
     for sd in seeds:
